@@ -16,13 +16,22 @@ AREAS = ["theories/Base", "theories/SnapRead"]
 ROOTS = ("ov_snapread",)
 
 
-def run_pipeline(exe, modelrun, env, case=None):
+def run_pipeline(exes, modelrun, env, case=None):
+    """exes = (mock-store driver, unistore driver); history ids >= 100000 belong to the unistore driver"""
+    tmo = 300 if env.get("VERIF_TIER") != "thorough" else 1500
     if case:
+        exe = exes[1] if int(case[1]) >= 100000 else exes[0]
         rc, lines = vlib.sh([exe, "replay"] + [str(c) for c in case], env=env, timeout=300)
+        if rc != 0:
+            return None, "driver failed rc=%d: %s" % (rc, lines[-800:])
     else:
-        rc, lines = vlib.sh([exe], env=env, timeout=(300 if env.get("VERIF_TIER") != "thorough" else 1500))
-    if rc != 0:
-        return None, "driver failed rc=%d: %s" % (rc, lines[-800:])
+        lines = ""
+        for exe in exes:
+            e2 = dict(env)
+            rc, out = vlib.sh("%s 2>/dev/null" % exe if exe == exes[1] else [exe], env=e2, timeout=tmo)
+            if rc != 0:
+                return None, "driver %s failed rc=%d: %s" % (os.path.basename(exe), rc, out[-800:])
+            lines += out if out.endswith("\n") or not out else out + "\n"
     rc, cmp_out = vlib.sh([modelrun], inp=lines, timeout=1200)
     if rc != 0:
         return None, "modelrun failed: " + cmp_out[-500:]
@@ -54,6 +63,14 @@ def main(tier, replay):
     env = vlib.goenv(); env["VERIF_SEED"] = str(vlib.SEED); env["VERIF_TIER"] = tier
     okm, modelrun = vlib.build_model("SnapRead")
     okg, exe = vlib.go_build("snapread", roots=ROOTS)
+    if okg:
+        # unistore tier (honours committed_locks, async commit, 1PC): main package in module integration_tests
+        okg, exe_uni = vlib.go_build("snapread_uni", pkg="./zz_verif_snapread",
+                                     module_dir=os.path.join(vlib.REPO, "integration_tests"), roots=ROOTS)
+        if not okg:
+            exe = exe_uni
+        else:
+            exe = (exe, exe_uni)
     stats, samples, mism, pfails = {}, [], [], []
     seed = vlib.SEED
     if okg and okm:
